@@ -878,3 +878,143 @@ class L2Replayer:
             self.problems.append({'where': 'unreplayable: scripted mutations never arrived', 'kinds': ['unreplayable'], 'allowed': sorted(map(str, allowed)),
                                   'landed': sorted(map(str, gate.landed))})
         return o
+
+
+# ---------------------------------------------------------------- L2: two client processes, step-level interleavings
+class StepGate:
+    """gate of one client process: every exists / upload / upload_stream / delete on a chunk or snapshot name parks until the
+    scheduler releases exactly that call (or the process is killed)"""
+
+    def __init__(self, ident):
+        self.ident = ident
+        self.cv = threading.Condition()
+        self.parked = {}      # (op, id) -> released?
+        self.landed = set()
+        self.dead = False
+
+    def __call__(self, be, op, name):
+        if op not in ('exists', 'upload', 'upload_stream', 'delete') or not name.startswith(('data/', 'snapshots/')):
+            return
+        key = (op, self.ident(name))
+        with self.cv:
+            self.parked[key] = False
+            self.cv.notify_all()
+            while not self.parked[key] and not self.dead:
+                self.cv.wait(0.05)
+            del self.parked[key]
+            if self.dead:
+                be.dead = True
+                raise membackend.Killed()
+
+    def wait_parked(self, key, timeout=3.0):
+        import time
+        end = time.time() + timeout
+        with self.cv:
+            while key not in self.parked:
+                left = end - time.time()
+                if left <= 0:
+                    return False
+                self.cv.wait(min(left, 0.05))
+        return True
+
+    def any_parked(self, op, timeout=3.0):
+        import time
+        end = time.time() + timeout
+        with self.cv:
+            while True:
+                ks = [k for k in self.parked if k[0] == op]
+                if ks:
+                    return ks[0]
+                left = end - time.time()
+                if left <= 0:
+                    return None
+                self.cv.wait(min(left, 0.05))
+
+    def release(self, key):
+        with self.cv:
+            self.parked[key] = True
+            self.cv.notify_all()
+
+    def kill(self):
+        with self.cv:
+            self.dead = True
+            self.cv.notify_all()
+
+
+class InterleavedReplayer(L2Replayer):
+    """TLC behaviours of Repo.tla with two client processes taking snapshots at the same time (README: non-destructive commands may
+    overlap): each SnapCheck / SnapUpload / SnapCommit / Crash step of the behaviour releases exactly the corresponding backend call
+    of the corresponding real process; the projected backend is compared with TLC's state after every step."""
+
+    def run(self, beh):
+        import time
+        beh = [(st['last']['a'], st) for _, st in beh]
+        procs = {}     # p -> dict(thread, gate, be, result)
+        steps = 0
+        for i in range(1, len(beh)):
+            act, st = beh[i]
+            last = st['last']
+            p = last.get('p')
+            if act == 'SnapBegin':
+                u, T = last['u'], sorted(last['T'])
+                files = [self.s.write_file('p%d/b%d.bin' % (p, c), self.block(c), mtime_ns=1_700_000_000_000_000_000 + c) for c in T]
+                gate = StepGate(self._ident(None))
+                be = self.s.world.backend(gate=gate)
+                landed = threading.Event()
+                be.after_mutation = lambda b, ev=landed: ev.set()
+                box = {}
+
+                def body(u=u, files=files, be=be, p=p, box=box):
+                    harness._NOCAP.on = True
+                    box['o'] = self.s.snapshot(u, files, p=p, backend=be)
+                th = threading.Thread(target=body, daemon=True)
+                th.start()
+                procs[p] = {'thread': th, 'gate': gate, 'be': be, 'box': box, 'landed': landed}
+            elif act in ('SnapCheck', 'SnapUpload') and p in procs:
+                pr = procs[p]
+                key = ('exists' if act == 'SnapCheck' else 'upload_stream', ('c', last['c']))
+                if not pr['gate'].wait_parked(key):
+                    self.problems.append({'where': 'unreplayable: %s(%s,%s) never arrived' % (act, p, last['c']), 'kinds': ['unreplayable']})
+                    break
+                pr['landed'].clear()
+                pr['gate'].release(key)
+                if act == 'SnapUpload':
+                    pr['landed'].wait(3.0)
+                elif last.get('r') is not None:
+                    pass
+            elif act == 'SnapCommit' and p in procs:
+                pr = procs[p]
+                key = pr['gate'].any_parked('upload')
+                if key is None:
+                    self.problems.append({'where': 'unreplayable: commit of process %s never arrived' % p, 'kinds': ['unreplayable']})
+                    break
+                pr['landed'].clear()
+                pr['gate'].release(key)
+                pr['landed'].wait(3.0)
+                pr['thread'].join(5.0)
+                o = pr['box'].get('o')
+                if o is None or not o.ok:
+                    self.problems.append({'where': 'snapshot of process %s raised' % p, 'kinds': ['command-failed'], 'etype': getattr(o, 'etype', 'hung')})
+                procs.pop(p)
+            elif act == 'Crash' and p in procs:
+                pr = procs.pop(p)
+                pr['gate'].kill()
+                pr['thread'].join(5.0)
+            elif act == 'Fail':
+                pass       # one backend call fails for good: calls in flight may still land (they stay steps of the behaviour); no commit follows
+            elif act == 'SnapAbortEnd' and p in procs:
+                pr = procs.pop(p)
+                pr['gate'].kill()
+                pr['thread'].join(5.0)
+            else:
+                continue
+            steps += 1
+            # let the released call take effect before looking
+            time.sleep(0.002)
+            self.compare(st, 'after %s(p=%s) at step %d' % (act, p, i))
+            if self.problems and 'unreplayable' not in self.problems[-1]['kinds']:
+                break
+        for pr in procs.values():
+            pr['gate'].kill()
+            pr['thread'].join(5.0)
+        return steps
